@@ -1,8 +1,9 @@
 #!/bin/bash
-# MANIFEST.setup_cmd: offline install of the contract libraries beside the repo's interpreter.
+# MANIFEST.setup_cmd: nothing is built or installed - the checks import athlib from /repo's working tree with
+# /venv/bin/python and load js/src in place under node.  This only verifies that the interpreters and the two
+# third-party modules the monitors use (both already in /venv) are present.
 cd "$(dirname "$0")" || exit 1
 set -e
-/venv/bin/pip install --no-index --find-links /opt/veriftools/wheels --target .deps -q deal icontract
-PYTHONPATH=.deps /venv/bin/python -c "import icontract, deal; print('icontract', icontract.__version__, 'deal', deal.__version__)"
+/venv/bin/python -c "import sortedcontainers, jsonschema, sys; print('python', sys.version.split()[0], 'sortedcontainers', sortedcontainers.__version__, 'jsonschema', jsonschema.__version__)"
 node --version
 mkdir -p evidence replays
